@@ -878,6 +878,56 @@ try:
     out["c_descriptors"] = rawl
 except Exception as e:
     out["descriptor_error"] = "%s: %s" % (type(e).__name__, e)
+# ---- composite option names: in a property setter, every branch `if value == "lit" [or value == "lit2" …]:` and the
+# attribute paths (self.a, self.a.b) the branch assigns, with the assigned literal where it is one
+composites = []
+def _store_paths(stmts):
+    outp = []
+    for st in stmts:
+        for node in ast.walk(st):
+            if isinstance(node, (ast.Assign, ast.AugAssign)):
+                tgts = node.targets if isinstance(node, ast.Assign) else [node.target]
+                for t in tgts:
+                    path, cur = [], t
+                    while isinstance(cur, ast.Attribute):
+                        path.append(cur.attr); cur = cur.value
+                    if isinstance(cur, ast.Name) and cur.id == "self" and path:
+                        v = node.value
+                        lit = repr(v.value) if isinstance(v, ast.Constant) else "?"
+                        outp.append([".".join(reversed(path)), lit])
+    return outp
+def _literals(test, pname):
+    lits = []
+    for node in ast.walk(test):
+        if isinstance(node, ast.Compare) and len(node.ops) == 1 and isinstance(node.ops[0], ast.Eq):
+            l, r = node.left, node.comparators[0]
+            for a, b in ((l, r), (r, l)):
+                if isinstance(a, ast.Name) and a.id == pname and isinstance(b, ast.Constant) and isinstance(b.value, str):
+                    lits.append(b.value)
+    return lits
+for cname in list(classes):
+    cls = None
+    for m in mods:
+        if isinstance(getattr(m, cname, None), type):
+            cls = getattr(m, cname); break
+    if cls is None: continue
+    try:
+        tree = ast.parse(textwrap.dedent(inspect.getsource(cls)))
+    except Exception:
+        continue
+    for node in tree.body[0].body:
+        if not isinstance(node, ast.FunctionDef): continue
+        if not any(isinstance(d_, ast.Attribute) and d_.attr == "setter" for d_ in node.decorator_list): continue
+        if len(node.args.args) < 2: continue
+        pname = node.args.args[1].arg
+        for sub in ast.walk(node):
+            if isinstance(sub, ast.If):
+                lits = _literals(sub.test, pname)
+                if lits:
+                    paths = _store_paths(sub.body)
+                    for lit in lits:
+                        composites.append(dict(cls=cname, prop=node.name, name=lit, stores=paths))
+out["composites"] = composites
 out["ffi_decls"] = decls
 out["ffi_calls"] = calls
 out["ffi_dynamic"] = dynamic
@@ -970,6 +1020,11 @@ def lean_options(cs, py, ref):
     L.append("/-- ctypes fields whose descriptor replaces a property/method of the same name in the class body: (class, field) -/")
     sh = ["  (%s, %s)" % (lstr(c), lstr(n)) for c, v in sorted(py["classes"].items()) for n in v.get("shadowed", [])]
     L.append("def pyShadowed : List (Name × Name) := [%s]\n" % ("\n" + ",\n".join(sh) + "\n" if sh else ""))
+    L.append("/-- literal option names of property setters and what their branch assigns: (class, property, name, [(attribute path, literal or ?)]) -/")
+    cr = ["  (%s, %s, %s, [%s])" % (lstr(x["cls"]), lstr(x["prop"]), lstr(x["name"]), ", ".join("(%s, %s)" % (lstr(a), lstr(b)) for a, b in x["stores"]))
+          for x in py.get("composites", [])]
+    L.append("def pyComposites : List CompositeRow := [%s]\n" % ("\n" + ",\n".join(cr) + "\n" if cr else ""))
+    L.append("def pyCompositeCount : Nat := %d" % len(cr))
     L.append("def cEnumRowCount : Nat := %d\ndef pyOptRowCount : Nat := %d\ndef pyFnOptRowCount : Nat := %d\ndef cFunctionCount : Nat := %d"
              % (len(rows), len(prow), len(fr), len(cs["functions"])))
     L.append("\nend RV.Gen.C18\n")
